@@ -140,6 +140,7 @@ def _run_one(job):
     raised = [e for e in tr["events"] if e["ev"] == "Raised"]
     res["outcome"] = "raised" if raised else "done"
     res["error"] = raised[0]["what"] if raised else None
+    tr["meta"]["untracked"] = bool(real_pool)
     res["trace"] = tr
     res["evals"] = rec.evals
     shutil.rmtree(out_dir, ignore_errors=True)
